@@ -89,3 +89,34 @@ Proof.
   destruct (exec_op f w (OEngine t (EOpenPosition v s m l lim) funds)) as [w'|e] eqn:E; [|reflexivity].
   exfalso. destruct (open_position_tx_leverage _ _ _ _ _ _ _ _ _ _ E Hi HD). lia.
 Qed.
+
+(* C06, first clause at transaction level: a Liquidate transaction succeeds only if, on the state it starts from, the
+   liquidation ratio is computable and not above the maintenance ratio, the position is not empty and the vAMM is
+   registered and open *)
+From MP.Proofs Require Import LiqFacts.
+Lemma liq_ratio_ledger w w0 s v t :
+  w_eng w0 = w_eng w -> w_vamms w0 = w_vamms w -> w_env w0 = w_env w -> w_feed w0 = w_feed w -> w_if w0 = w_if w ->
+  liq_ratio (with_liquidator w0 s) v t = liq_ratio (with_liquidator w s) v t /\
+  require_vamm (with_liquidator w0 s) v = require_vamm (with_liquidator w s) v.
+Proof.
+  intros E1 E2 E3 E4 E5. destruct w0, w. cbn in *. subst. split; reflexivity.
+Qed.
+
+Theorem liquidate_tx_only_if f w s v t lim funds w' :
+  exec_op f w (OEngine s (ELiquidate v t lim) funds) = Ok w' ->
+  exists mr, liq_ratio (with_liquidator w s) v t = Ok mr /\
+             sgtb mr (spos (e_maint (ec (w_eng w)))) = false /\
+             sval (p_size (read_position (w_eng w) v t)) <> 0 /\
+             require_vamm (with_liquidator w s) v = Ok tt.
+Proof.
+  intros H. cbn [exec_op] in H. revert H. generalize FUEL. intros fuel H.
+  destruct (attach_funds w s A_ENGINE funds) as [w0|] eqn:Ea; [|discriminate]. cbn [bind] in H.
+  cbn [engine_execute] in H.
+  destruct (e_liquidate w0 s v t lim) as [[w1 subs]|] eqn:Eo; [|discriminate].
+  destruct (liquidate_only_if _ _ _ _ _ _ Eo) as (mr & H1 & H2 & H3 & H4).
+  assert (Hs : w_eng w0 = w_eng w /\ w_vamms w0 = w_vamms w /\ w_env w0 = w_env w /\ w_feed w0 = w_feed w /\ w_if w0 = w_if w).
+  { unfold attach_funds in Ea. destruct (funds =? 0); [inv_ok; repeat split|]. minv Ea. inv_ok. repeat split. }
+  destruct Hs as (E1 & E2 & E3 & E4 & E5).
+  destruct (liq_ratio_ledger w w0 s v t E1 E2 E3 E4 E5) as [L1 L2].
+  exists mr. rewrite <- L1, <- L2, <- E1. auto.
+Qed.
